@@ -211,6 +211,16 @@ func checkCmd(argv []string) int {
 	readJSON(filepath.Join(*verif, "known_findings.json"), &known)
 	var replays []ReplaySpec
 	readJSON(filepath.Join(*verif, "replay", "map.json"), &replays)
+	if more, _ := filepath.Glob(filepath.Join(*verif, "replay", "map_*.json")); len(more) > 0 {
+		sort.Strings(more)
+		for _, mf := range more {
+			var extra []ReplaySpec
+			if readJSON(mf, &extra) == nil {
+				// specific maps first: the generic per-family entries of map.json are the fallback
+				replays = append(extra, replays...)
+			}
+		}
+	}
 
 	type row struct {
 		Name, Status, Backend, Desc, Func, Pos string
